@@ -15,7 +15,7 @@ UNITS = [
     U("get_free", "h_get_free", "p_shm_buffer_get_free_space", canaries=2),
     U("get_used", "h_get_used", "p_shm_buffer_get_used_space", canaries=2),
     U("clear", "h_clear", "p_shm_buffer_clear", canaries=2),
-    U("new_free_own", "h_new", None, harness="newfree.c", canaries=3, memleak=True, functions=["p_shm_buffer_new", "p_shm_buffer_free", "p_shm_buffer_take_ownership"],
+    U("new_free_own", "h_new", None, harness="newfree.c", canaries=4, memleak=True, functions=["p_shm_buffer_new", "p_shm_buffer_free", "p_shm_buffer_take_ownership"],
       cbmc_flags=["--memory-leak-check"]),
     U("new_null", "h_new_null", None, harness="newfree.c", functions=[]),
     U("lemma_used_plus_free", "h_lemma_used_plus_free", None, functions=[]),
